@@ -17,3 +17,57 @@ Print Assumptions C10_keyword_table_strictly_sorted.
 Theorem C10_keyword_table_same_members : forall l x, In x (sort_set l) <-> In x l.
 Proof. exact sort_set_In. Qed.
 Print Assumptions C10_keyword_table_same_members.
+
+(* "For every accepted grammar the output ... defines the parser class with one method per rule and keyword tables
+   listing exactly the grammar's hard and soft keywords in sorted order" -- for the generator model, for ALL grammars
+   and analysis results: *)
+From Pegen Require Import Grammar.Ast Analysis.Visitor Analysis.Nullable Analysis.Literals Gen.Gen Proofs.GenKw Proofs.GenKwSound Proofs.GenNames.
+
+(* the methods are: one per rule of the grammar, named after it, in the order of the grammar; then the helper methods
+   (_tmp_k, _loop0_k, _loop1_k, _gather_k), whose numbers k are pairwise distinct.  (Invariant over the call maker and the
+   work list: the queue is only ever extended at its end, by rules named after fresh values of the counter.) *)
+Theorem C10_one_method_per_rule_then_numbered_helpers :
+  forall invalid_tbl iter_fields pre suf file fb g an M,
+  generate invalid_tbl iter_fields pre suf file fb g an = inl M ->
+  exists helpers ks, map m_name (i_meths M) = (map rname (rules g) ++ map rname helpers)%list /\
+                     Forall2 (fun r k => helper_name (rname r) k) helpers ks /\ NoDup ks.
+Proof. exact generated_methods_follow_the_rules. Qed.
+Print Assumptions C10_one_method_per_rule_then_numbered_helpers.
+
+(* the tables are strictly sorted and hold exactly the quoted words of the grammar *)
+Theorem C10_generated_keyword_tables_sorted_and_exact :
+  forall invalid_tbl iter_fields pre suf file fb g an M,
+  ids_distinct g ->
+  generate invalid_tbl iter_fields pre suf file fb g an = inl M ->
+  strictly_sorted (i_keywords M) /\ strictly_sorted (i_soft_keywords M) /\
+  (forall w, In w (i_keywords M) <-> In w (hard_keywords g)) /\
+  (forall w, In w (i_soft_keywords M) <-> In w (soft_keywords g)).
+Proof.
+  intros it itf pre suf file fb g an M Hd H.
+  destruct (generated_keyword_tables_are_exact it itf pre suf file fb g an M Hd H) as [A B].
+  split; [|split; [|split; [exact A|exact B]]].
+  - unfold generate in H. destruct (emit_all _ _ _ _ _ _ _ _ _) as [[ms|e] st]; [|discriminate]. injection H as <-. apply sort_set_sorted.
+  - unfold generate in H. destruct (emit_all _ _ _ _ _ _ _ _ _) as [[ms|e] st]; [|discriminate]. injection H as <-. apply sort_set_sorted.
+Qed.
+Print Assumptions C10_generated_keyword_tables_sorted_and_exact.
+
+(* non-vacuity: a grammar with a group, a repetition and a gather gets its three rule methods first and four helpers *)
+Definition g10 : grammar :=
+  {| rules :=
+       [{| rname := "start"; rtype := None; rmemo := false;
+           rrhs := Rhs 1 [Alt [NItem 2 None None (Gather 3 (StringLeaf "','") (NameLeaf "a")); NItem 4 None None (NameLeaf "NEWLINE")] None] |};
+        {| rname := "a"; rtype := None; rmemo := false;
+           rrhs := Rhs 5 [Alt [NItem 6 None None (Repeat1 7 (NameLeaf "b"))] None; Alt [NItem 8 None None (StringLeaf "'if'")] None] |};
+        {| rname := "b"; rtype := None; rmemo := false;
+           rrhs := Rhs 9 [Alt [NItem 10 None None (Group (Rhs 11 [Alt [NItem 12 None None (NameLeaf "NAME")] None; Alt [NItem 13 None None (StringLeaf """soft""")] None]));
+                               NItem 14 None None (NameLeaf "NUMBER")] None] |}];
+     metas := [] |}.
+Definition an10 : analysis := {| a_nullable := []; a_item_nullable := []; a_graph := []; a_left_rec := []; a_leaders := [] |}.
+Example C10_methods_example :
+  match generate [] [] "" "" "g" 100 g10 an10 with
+  | inl M => map m_name (i_meths M) = ["start"; "a"; "b"; "_loop0_2"; "_gather_1"; "_loop1_3"; "_tmp_4"] /\
+             i_keywords M = ["if"] /\ i_soft_keywords M = ["soft"]
+  | inr _ => False
+  end.
+Proof. vm_compute. repeat split; reflexivity. Qed.
+Print Assumptions C10_methods_example.
